@@ -4,8 +4,6 @@ import json, glob, os
 # changes that need an input or situation outside the property's scope (see DESIGN.md section 13)
 NOT_CLAIMED={
  'C02-w6f9m2':'needs pointer_field 255: a first section starting outside the packet that announces it (ISO 13818-1 2.4.4.2 does not allow it)',
- 'C07-w7m2':'needs a reader that reports end of file and later delivers more data, with NextData called again after ErrNoMorePackets',
- 'C19-w7m1':'same as C07-w7m2: a source that resumes after end of file',
  'C16-w7m2':'needs a PacketsParser that keeps the slice it was handed beyond the call; whether that slice may be reused is not promised either way',
  'C19-w7m2':'needs a PAT/PMT section_length >= 1024, which ISO 13818-1 forbids',
  'C09-w10m2':'needs the decoding of a typed descriptor (local_time_offset with two entries) to be compared: descriptor codecs are property C14, not applicable to this technique; the reference streams carry user-defined descriptors only',
